@@ -120,6 +120,8 @@ class Gen(object):
             f = 'f%d' % (self.fn % 3)
             fbody = self.rng.choice([g.var('x'), g.bn('+', g.var('1'), g.var('x')), g.lst(g.var('1'), g.var('2'), g.var('y')), self.intexpr(d - 1, sc)])
             inner = g.bn('->', g.call('let', **{'x': g.c(r.randint(5, 9))}), g.call(f, self.intexpr(d - 2, sc2)))
+            if r.random() < 0.3:
+                inner = g.lst(g.call(f, **{r.choice(NAMES): self.intexpr(d - 2, sc)}), g.var(r.choice(NAMES)), body(d - 2, sc))
             if r.random() < 0.5:
                 inner = g.lst(g.call(f, g.c(1), g.c(2)), g.call(f, g.c(3)), body(d - 2, sc))
             return g.bn('->', g.call('def', g.kwd(f), fbody), inner)
@@ -168,6 +170,10 @@ def fixed_probes():
         g.mcall(g.mcall(g.lst(c(1), c(2), c(3)), 'distinct', keySelector=g.bn('mod', X, c(2))), 'toList'),
         arrow(g.call('def', g.kwd('g'), X), g.mcall(g.mcall(one_two, 'select', g.call('g')), 'toList')),
         arrow(g.call('def', g.kwd('f'), g.lst(v('1'), v('2'))), arrow(g.call('with', c(7), c(8)), g.call('f', c(1)))),
+        # arguments passed by name to a def-ined function live in that call only
+        arrow(g.call('def', g.kwd('f'), g.bn('*', v('x'), c(2))), g.lst(g.call('f', x=c(5)), v('x'))),
+        arrow(g.call('let', x=c(0)), arrow(g.call('def', g.kwd('f'), g.bn('+', v('x'), c(1))), g.lst(g.call('f', x=c(5)), v('x'), g.call('f', x=c(7)), g.call('f')))),
+        arrow(g.call('def', g.kwd('f'), g.lst(v('x'), v('y'))), g.lst(g.call('f', x=c(1)), g.call('f', y=c(2)), g.call('f', c(3), y=c(4)))),
     ]
 
 
